@@ -104,6 +104,14 @@ theorem admits_sound (h : Hist) (ha : admits h = true) :
         disj (a, l) (a', l')) :=
   admits_sound_main h ha
 
+/-- The same for a schedule proposed from outside (used for long histories, where the check constructs the
+    candidate schedule itself and the driver only replays it on the model). -/
+theorem explains_sound (h : Hist) (σ : List Nat) (hw : h.wellFormed = true) (he : explains h σ = true) :
+    (∀ (i a l : Nat), h.res[i]? = some (some (.ok a l)) → h.min ≤ a ∧ a + l ≤ h.max ∧ h.lens[i]? = some l) ∧
+    (∀ (i j a l a' l' : Nat), i ≠ j → h.res[i]? = some (some (.ok a l)) → h.res[j]? = some (some (.ok a' l')) →
+        disj (a, l) (a', l')) :=
+  explains_sound_main h σ hw he
+
 example : admits ⟨1000, 1000, 1100, [40, 40, 40], [some (.ok 1040 40), some (.ok 1000 40), some .err],
     [.inv 0, .inv 1, .inv 2, .resp 1, .resp 0, .resp 2]⟩ = true := by decide +kernel
 
